@@ -580,6 +580,15 @@ func init() {
 		i.threads = newThreadState(i.cint(a[0], "maxPreempt"))
 		return nil
 	}
+	ext[symPkg+"ThreadsPool"] = func(fr *frame, a []value) value {
+		i := fr.i
+		if i.ps.noDecide {
+			i.unsupported("sym.ThreadsPool during setup")
+		}
+		i.threads = newThreadState(i.cint(a[0], "maxPreempt"))
+		i.threads.poolSync = true
+		return nil
+	}
 	ext[symPkg+"Go"] = func(fr *frame, a []value) value {
 		i := fr.i
 		if i.threads == nil {
